@@ -1694,11 +1694,11 @@ func ruleGRDfusionNorm(w *World, r *Report) {
 // the header passes `must` (no `continue`/skip on the way), apart from the edges in `blocked`. Returns the witness of a
 // skipping path.
 func everyIterationPasses(fn *ssa.Function, must ssa.Instruction, blocked map[edgeKey]bool) (bool, []ssa.Instruction, *ssa.BasicBlock) {
-	h := enclosingLoop(fn, must.Block())
+	h := innermostLoop(fn, must.Block())
 	if h == nil {
 		return false, nil, nil
 	}
-	body := loopBlocks(fn, h)
+	body := naturalLoop(h)
 	bl := map[edgeKey]bool{}
 	for k, v := range blocked {
 		bl[k] = v
@@ -2018,8 +2018,8 @@ func ruleGRDmaporder(w *World, r *Report, specs [][2]string) {
 		// the exhausted-exit edges of the priority walks
 		blocked := map[edgeKey]bool{}
 		for _, rt := range fromSlice {
-			if h := enclosingLoop(fn, rt.Block()); h != nil {
-				body := loopBlocks(fn, h)
+			if h := enclosingLoop(fn, rt.Block()); h != nil { // the return leaves the loop: counted to the body it comes from
+				body := naturalLoop(h)
 				for si, sc := range h.Succs {
 					if !body[sc] {
 						blocked[edgeKey{h, si}] = true
@@ -2156,7 +2156,7 @@ func ruleGRDreslice(w *World, r *Report) {
 					for _, bb := range fn.Blocks {
 						for _, x := range bb.Instrs {
 							if ia, ok := x.(*ssa.IndexAddr); ok && isSliceType(ia.X.Type()) && sameSrc(ia.X) {
-								if h := enclosingLoop(fn, bb); h != nil {
+								if h := innermostLoop(fn, bb); h != nil {
 									readLoops = append(readLoops, h)
 								}
 							}
@@ -2182,12 +2182,12 @@ func ruleGRDreslice(w *World, r *Report) {
 							if !into {
 								continue
 							}
-							ha := enclosingLoop(fn, bb)
+							ha := innermostLoop(fn, bb)
 							if ha == nil {
 								continue
 							}
 							for _, hr := range readLoops {
-								if hr != ha && loopBlocks(fn, hr)[ha] {
+								if hr != ha && naturalLoop(hr)[ha] {
 									bad, at = true, c.Pos()
 								}
 							}
@@ -3019,4 +3019,186 @@ func sameCellLoads(a, b ssa.Value) bool {
 		}
 	}
 	return true
+}
+
+// ---------------------------------------------------------------------------------------------------------------
+// GRD-batchrounds: the bulk insert links its batch in rounds.
+// The neighbour search only sees nodes that already have links. If the search for the whole batch runs before any
+// link of the batch is committed, every new node attaches to the OLD graph only; the batch has no links among its own
+// nodes and most of it cannot be reached (recall 0.52 on uniform data, 0.002 on a new cluster).
+// ---------------------------------------------------------------------------------------------------------------
+func ruleGRDbatchrounds(w *World, r *Report) {
+	r.Doc("GRD-batchrounds", "in Index.addBatchInternal the neighbour search of the batch and the commit of its links run inside one common loop over a moving window of the batch's nodes: links of earlier nodes of the batch are committed before the neighbours of later ones are searched (searching for the whole batch first leaves the batch without links among its own nodes)", 1)
+	fi := w.Func(hnswPkg, "Index.addBatchInternal")
+	search := w.FuncObj(hnswPkg, "Index.searchLayerUnlocked")
+	if fi == nil || search == nil {
+		r.Und("GRD-batchrounds", "anchor:Index.addBatchInternal/searchLayerUnlocked", "", "anchor lost")
+		return
+	}
+	root := w.SSAFunc(fi.Obj)
+	// the closures (direct children of root) that search / that store into Connections
+	var searchMC, commitMC []ssa.Instruction
+	for _, b := range root.Blocks {
+		for _, in := range b.Instrs {
+			mc, ok := in.(*ssa.MakeClosure)
+			if !ok {
+				continue
+			}
+			cf := mc.Fn.(*ssa.Function)
+			fs := append([]*ssa.Function{cf}, closuresOf(cf)...)
+			for _, f := range fs {
+				if len(findInstrs(f, callsTo(search))) > 0 {
+					searchMC = append(searchMC, in)
+				}
+				for _, bb := range f.Blocks {
+					for _, x := range bb.Instrs {
+						st, ok := x.(*ssa.Store)
+						if !ok {
+							continue
+						}
+						ia, ok := st.Addr.(*ssa.IndexAddr)
+						if !ok {
+							continue
+						}
+						if ld, ok := ia.X.(*ssa.UnOp); ok && ld.Op == token.MUL {
+							if fa, ok := ld.X.(*ssa.FieldAddr); ok {
+								if _, fld := structFieldName(fa.X.Type(), fa.Field); fld == "Connections" {
+									commitMC = append(commitMC, in)
+								}
+							}
+						}
+					}
+				}
+			}
+		}
+	}
+	if len(searchMC) == 0 || len(commitMC) == 0 {
+		r.Und("GRD-batchrounds", "Index.addBatchInternal:search-and-commit-in-one-loop", w.Pos(fi.Decl.Pos()), fmt.Sprintf("the search workers (%d) or the commit workers (%d) of the bulk path were not found (shape not recognised)", len(searchMC), len(commitMC)))
+		return
+	}
+	// natural loops only (a block after a loop with a `break` is not inside it)
+	loopsOf := func(b *ssa.BasicBlock) map[*ssa.BasicBlock]bool {
+		out := map[*ssa.BasicBlock]bool{}
+		for _, h := range root.Blocks {
+			isHeader := false
+			for _, p := range h.Preds {
+				if h.Dominates(p) {
+					isHeader = true
+				}
+			}
+			if isHeader && naturalLoop(h)[b] {
+				out[h] = true
+			}
+		}
+		return out
+	}
+	var common *ssa.BasicBlock
+	for _, s := range searchMC {
+		ls := loopsOf(s.Block())
+		for _, c := range commitMC {
+			for h := range loopsOf(c.Block()) {
+				// the innermost common loop: the one every other common header dominates
+				if ls[h] && (common == nil || common.Dominates(h)) {
+					common = h
+				}
+			}
+		}
+	}
+	moving, firstWindowWhole := false, false
+	if common != nil {
+		debugAlloc("batchrounds: common loop header = block %d; search closures in %v, commit closures in %v", common.Index, blockIdx(searchMC), blockIdx(commitMC))
+		body := naturalLoop(common)
+		for b := range body {
+			for _, in := range b.Instrs {
+				sl, ok := in.(*ssa.Slice)
+				if !ok || sl.Low == nil {
+					continue
+				}
+				debugAlloc("batchrounds: slice %s of %s in block %d low=%s", sl.Name(), sl.X.Type(), b.Index, sl.Low)
+				if !strings.HasSuffix(sl.X.Type().String(), "Node") {
+					continue
+				}
+				for _, leaf := range append(valueRoots(sl.Low), sl.Low) {
+					if p, ok := leaf.(*ssa.Phi); ok && p.Block() == common {
+						moving = true
+					}
+				}
+				// the first window is small: every header phi the upper bound is computed from enters the loop with a constant
+				if sl.High != nil {
+					for _, leaf := range arithLeaves(sl.High, 0) {
+						if p, ok := leaf.(*ssa.Phi); ok && p.Block() == common {
+							for i, e := range p.Edges {
+								if !body[common.Preds[i]] {
+									if _, isC := e.(*ssa.Const); !isC {
+										firstWindowWhole = true
+									}
+								}
+							}
+						}
+					}
+				}
+			}
+		}
+	}
+	why := "the neighbour search for the batch and the commit of its links are not inside a common loop: every node of the batch is searched against the graph as it was before the batch"
+	if common != nil && !moving {
+		why = "the common loop does not move a window over the batch's nodes (no sub-slice of the node list whose start changes with the loop)"
+	}
+	if common != nil && moving && firstWindowWhole {
+		why = "the first window does not start from a constant size (it spans the batch): there is one round only"
+	}
+	r.Cond(common != nil && moving && !firstWindowWhole, "GRD-batchrounds", "Index.addBatchInternal:search-and-commit-in-one-loop", w.Pos(searchMC[0].Pos()), "search and commit alternate over a moving window of the batch", "the bulk insert searches the neighbours of ALL new nodes before it commits any of their links ("+why+"): the search only sees linked nodes, so the batch attaches to the old graph alone, gets no links among its own nodes and keeps only the few in-links the old nodes retain after pruning — VAddBatch of 8000 uniform vectors into 500 gives recall@10 of 0.52, a batch that forms a new cluster 0.002 (single inserts: 1.0)")
+}
+
+func blockIdx(xs []ssa.Instruction) []int {
+	var out []int
+	for _, x := range xs {
+		out = append(out, x.Block().Index)
+	}
+	return out
+}
+
+// naturalLoop: the natural loop of header h — h and every block from which a back-edge source of h can be reached
+// without passing through h. (loopBlocks' "dominated by h and reaches h" also counts the blocks after an inner loop
+// that get back to its header through the back edge of an OUTER loop.)
+func naturalLoop(h *ssa.BasicBlock) map[*ssa.BasicBlock]bool {
+	body := map[*ssa.BasicBlock]bool{h: true}
+	var work []*ssa.BasicBlock
+	for _, p := range h.Preds {
+		if h.Dominates(p) && !body[p] {
+			body[p] = true
+			work = append(work, p)
+		}
+	}
+	for len(work) > 0 {
+		x := work[len(work)-1]
+		work = work[:len(work)-1]
+		for _, p := range x.Preds {
+			if !body[p] {
+				body[p] = true
+				work = append(work, p)
+			}
+		}
+	}
+	return body
+}
+
+// innermostLoop: the header of the innermost natural loop that contains b (nil if none).
+func innermostLoop(fn *ssa.Function, b *ssa.BasicBlock) *ssa.BasicBlock {
+	var best *ssa.BasicBlock
+	for _, h := range fn.Blocks {
+		isHeader := false
+		for _, p := range h.Preds {
+			if h.Dominates(p) {
+				isHeader = true
+			}
+		}
+		if !isHeader || !naturalLoop(h)[b] {
+			continue
+		}
+		if best == nil || best.Dominates(h) {
+			best = h
+		}
+	}
+	return best
 }
